@@ -197,7 +197,7 @@ class World:
     _count = 0
 
     def __init__(self, files=None, legacy=False, config=None, start_utc=DEFAULT_START_UTC, capture_logs=False,
-                 allow_all_imports=False, started=True, log_level=logging.WARNING, thread_executor=False):
+                 allow_all_imports=False, started=True, log_level=logging.WARNING, thread_executor=False, tick=0.0):
         # Garbage collection policy: automatic collections are off (a full collection walks the whole Home
         # Assistant heap, ~100 ms, and 16 workers doing that saturate the memory system).  Each world freezes what
         # exists after set-up, so the explicit gc.collect() between operations only sees the operations' own
@@ -212,6 +212,7 @@ class World:
         self.loop = loop = VirtualLoop()
         loop.install()
         loop.thread_executor = thread_executor
+        loop.tick = tick  # > 0: the clock creeps forward with every callback, as a real clock does
         self.t0 = loop.time()
         self.start_utc = start_utc
         self.skew = 0.0  # wall clock early (<0) / late (>0) relative to the monotonic clock
